@@ -4,22 +4,42 @@
    stub was scripted to do (exit status and the four files a hook hands back), the HTTP
    answer, the hook process that ran, and the side effects observed afterwards (marker
    Kubernetes operation applied to the cluster, marker metric present in the hooks' metric
-   storage). *)
-From Verif Require Import Common C14_Model C14_Spec.
+   storage).
+
+   A second class of cases, CConc: requests that OVERLAP in time (one operator, 2-6 requests in
+   flight at once, the scripted hook processes held at two points - started, written - and moved on
+   by the harness in the order [moves] says: request numbers, each occurrence lets that request run
+   to its next hold point or to its end; afterwards every request is let run to its end).  Per
+   request the same observations, plus whether the hook process found its four output files empty
+   when it started.  The model is the transition system of C14_ConcModel run under these moves;
+   every request is judged by C14_Spec.P against its own run (C14_ConcSpec.P_conc). *)
+From Verif Require Import Common C14_Model C14_Spec C14_ConcModel C14_ConcSpec.
 
 Definition req := (bytes * body * run * (answer * ran) * (bool * bool))%type.
 
 Inductive case :=
 | Case (hooks : list hook) (regs : list reg) (reqs : list req)
+| CConc (hooks : list hook) (regs : list reg) (reqs : list (req * bool)) (moves : list N)
 | CCrash.
 
-Inductive mobs := MObs (regs : list reg) (answers : list (answer * ran * (bool * bool))) | MCrash.
+Inductive mobs :=
+| MObs (regs : list reg) (answers : list (answer * ran * (bool * bool)))
+| MConc (regs : list reg) (outs : list (option cout))
+| MCrash.
+
+Definition creq_of (x : req * bool) : creq :=
+  match x with ((path, b, r, _, _), _) => mkCR path b r end.
+Definition cout_of (x : req * bool) : cout :=
+  match x with ((_, _, _, (a, who), eff), em) => (a, who, eff, em) end.
 
 Definition model_obs (c : case) : mobs :=
   match c with
   | Case hooks _ reqs =>
     MObs (model_regs hooks)
          (map (fun q => match q with (path, b, r, _, _) => (admit_request hooks path b r, admit_effects hooks path b r) end) reqs)
+  | CConc hooks _ reqs moves =>
+    let rs := map creq_of reqs in
+    MConc (model_regs hooks) (outs rs (moves_run hooks rs moves))
   | CCrash => MCrash
   end.
 
@@ -58,11 +78,17 @@ Definition obs_eqb (a b : answer * ran * (bool * bool)) : bool :=
   answer_eqb (fst (fst a)) (fst (fst b)) && ran_eqb (snd (fst a)) (snd (fst b))
   && Bool.eqb (fst (snd a)) (fst (snd b)) && Bool.eqb (snd (snd a)) (snd (snd b)).
 
+Definition cout_eqb (a b : cout) : bool :=
+  obs_eqb (fst a) (fst b) && Bool.eqb (snd a) (snd b).
+
 Definition agrees (c : case) : bool :=
   match c, model_obs c with
   | Case _ regs reqs, MObs mregs answers =>
     list_eqb reg_eqb mregs regs
     && list_eqb obs_eqb answers (map (fun q => match q with (_, _, _, o, e) => (o, e) end) reqs)
+  | CConc _ regs reqs _, MConc mregs os =>
+    list_eqb reg_eqb mregs regs
+    && list_eqb (option_eqb cout_eqb) os (map (fun x => Some (cout_of x)) reqs)
   | _, _ => false
   end.
 
@@ -72,6 +98,8 @@ Definition P_req (regs : list reg) (q : req) : bool :=
 Definition P_case (c : case) : bool :=
   match c with
   | Case _ regs reqs => forallb (P_req regs) reqs
+  | CConc _ regs reqs _ =>
+    P_conc regs (map (fun x => (creq_of x, match x with ((_, _, _, o, _), _) => o end)) reqs)
   | CCrash => false
   end.
 
